@@ -572,6 +572,12 @@ class Story:
 def gen_module(rng, path, nsym=None):
     tab = gen_file_tab(rng, nsym or rng.choice([2, 3, 5, 8]))
     tab = [(a % 0x100000, s, t, n) for a, s, t, n in tab if (a % 0x100000) + s < 0x100000]
+    if tab and rng.random() < 0.5:          # a symbol on the very first byte of the module
+        a0 = tab[0][0]
+        tab = [(a - a0, s, t, n) for a, s, t, n in tab]
+    if tab and rng.random() < 0.3:          # ... and one ending on its very last byte
+        a, s, t, n = tab[-1]
+        tab[-1] = (a, 0x100000 - a, t, n) if 0x100000 - a < 0xa0000000 else tab[-1]
     # unique names per module make answers unambiguous
     tab = [(a, s, t, "%s@%s" % (n.replace(" ", "_"), os.path.basename(path))) for a, s, t, n in tab]
     if rng.random() < 0.3 and tab:
@@ -707,7 +713,9 @@ def story_probes(rng, st):
                     tab = st.modules[m]
                     for x in rng.sample(tab, min(len(tab), 2)):
                         cands += [a + x[0] - 1, a + x[0], a + x[0] + x[1] - 1, a + x[0] + x[1]]
-                    cands += [a - 1, b - 1, b]
+                    for q in (a - 1, a, b - 1, b):          # module boundaries: always probed (once per session)
+                        if t == tl[0][0]:
+                            ps.append((tid, t, q % W64))
                 for _, base, lib in s["dl"]:
                     tab = st.modules[lib]
                     for x in rng.sample(tab, min(len(tab), 2)):
